@@ -28,6 +28,14 @@
      _dispatch_block_async_invoke2   (async/group_async): same as sync_invoke, then Block_release when the
                                        continuation consumes the block; dispatch_group_async's own group is
                                        left afterwards by _dispatch_continuation_with_group_invoke.
+       two entry points: _dispatch_block_async_invoke_and_release (continuations with DC_FLAG_CONSUME:
+       dispatch_async / dispatch_group_async: the invoke gives back the copy made at submission) and the
+       NON-CONSUMING _dispatch_block_async_invoke (continuations without DC_FLAG_CONSUME: dispatch_after with
+       a deadline in the future, "after", and a block object installed as the event handler of a (one-shot
+       timer) source, "handler": the source owns the copy; it is given back by _dispatch_source_handler_free
+       after the callout resp. when the cancelled source disposes of its handlers, never by the invoke).
+       Both take the same skip-if-cancelled decision.  The item is handed to the queue when the timer fires
+       (I_Fire); dispatch_after with a deadline that is not in the future is dispatch_async ("async").
 
    ASSUME / GUARANTEE SPLIT.  The private dispatch_group (dbpd_group) is modelled abstractly: a count
    (1 at creation), a generation that advances when the count reaches zero, waiters that are released by a
@@ -49,7 +57,7 @@ CONSTANTS Threads,      \* client threads
           NIds,         \* notification block identities
           Modes,        \* subset of {"obs", "multi"}: "obs" = executed once, may be waited on / observed;
                         \*   "multi" = executed several times, never waited on nor observed (dispatch/block.h)
-          Apis,         \* subset of {"async", "gasync", "sync", "direct"}
+          Apis,         \* subset of {"async", "gasync", "sync", "direct", "after", "handler"}
           QSerials,     \* subset of BOOLEAN: the target queue is serial
           Barriers,     \* subset of BOOLEAN: DISPATCH_BLOCK_BARRIER
           Gates,        \* subset of BOOLEAN: an earlier item is on the queue when the execution starts
@@ -70,7 +78,10 @@ Clr(w, b) == IF Has(w, b) THEN w - b ELSE w
 AFNew(act, w, dflt) == IF \E d \in Dev : d.act = act /\ d.old = w
                          THEN (CHOOSE d \in Dev : d.act = act /\ d.old = w).new ELSE dflt
 
-QApis == {"async", "gasync", "sync"}       \* submissions that go through the queue
+QApis == {"async", "gasync", "sync", "after", "handler"}   \* submissions that go through the queue
+ConsumeApis == {"async", "gasync"}         \* DC_FLAG_CONSUME: _dispatch_block_async_invoke_and_release
+TimerApis == {"after", "handler"}          \* no DC_FLAG_CONSUME: _dispatch_block_async_invoke, started by a timer
+CopyApis == ConsumeApis \cup TimerApis     \* _dispatch_continuation_init: the continuation holds a Block_copy
 Kinds == {"now", "timed", "forever"}
 MaxInv == IF MaxSubMulti > 1 THEN MaxSubMulti ELSE 1
 Bounded(n, max) == max < 0 \/ n < max
@@ -85,6 +96,7 @@ VARIABLES cfg,        \* [mode, qserial, barrier, gate]: fixed per execution
           nst, nsub,  \* per notification: "none"|"calling"|"registered"|"fired"|"ran"; times submitted
           gate,       \* earlier item on the queue: "none"|"queued"|"running"|"done"
           ug,         \* count of the user's group (dispatch_group_async)
+          bref,       \* ghost: copies (references) of the block object held by continuations
           pc, lv,     \* per client thread: control point, locals
           inv,        \* per submission: [api, pc, afl, thr, cbs, ran, skip]
           nsubm, ncancel, ntest, nwait, nperf,    \* API calls made
@@ -102,7 +114,7 @@ VARIABLES cfg,        \* [mode, qserial, barrier, gate]: fixed per execution
 
 blkv  == <<af, performed, dq, dthr, qref>>
 grpv  == <<gcnt, ggen, nst, nsub>>
-envv  == <<gate, ug>>
+envv  == <<gate, ug, bref>>
 cntv  == <<nsubm, ncancel, ntest, nwait, nperf>>
 ghov  == <<completed, cancelled, bodyStarts, bodyEnds, testBad, testFalse, waitedOK, lastTest, wres, crashed>>
 vars  == <<cfg, blkv, grpv, envv, pc, lv, inv, cntv, ghov>>
@@ -117,7 +129,7 @@ InitWith(c) ==
     /\ gcnt = 1 /\ ggen = 0                         \* _dispatch_group_create_and_enter()
     /\ nst = [n \in NIds |-> "none"] /\ nsub = [n \in NIds |-> 0]
     /\ gate = IF c.gate THEN "queued" ELSE "none"
-    /\ ug = 0
+    /\ ug = 0 /\ bref = 0
     /\ pc = [t \in Threads |-> "idle"] /\ lv = [t \in Threads |-> L0]
     /\ inv = [k \in 1..MaxInv |-> I0]
     /\ nsubm = 0 /\ ncancel = 0 /\ ntest = 0 /\ nwait = 0 /\ nperf = 0
@@ -325,22 +337,27 @@ NotifyRun(n) ==
 (* ------------------------------------ submission paths ------------------------------------ *)
 \* _dispatch_continuation_init_slow / _dispatch_sync_block_with_privdata:
 \* if (os_atomic_cmpxchg2o(dbpd, dbpd_queue, NULL, dq, relaxed)) _dispatch_retain_2(dq);
+\* (dq = the target queue; for "handler" the source itself).  Every path but dispatch_sync has copied the block
+\* object into its continuation just before (_dispatch_continuation_init: _dispatch_Block_copy).
 S_Cas(t) ==
     /\ pc[t] = "s_cas"
     /\ IF dq = 0 THEN dq' = 1 /\ qref' = qref + 2 ELSE dq' = dq /\ qref' = qref
     /\ LET k == lv[t].k IN
-       IF inv[k].api = "sync"
-         THEN Go(t, "in_inv") /\ SetInv(k, [inv[k] EXCEPT !.pc = "ready", !.thr = t])
-         ELSE Go(t, "s_push") /\ inv' = inv
-    /\ UNCHANGED <<cfg, af, performed, dthr, grpv, envv, lv, cntv, ghov>>
-\* dispatch_group_async: dispatch_group_enter(dg) ; then the continuation is pushed (dx_push)
+       /\ bref' = IF inv[k].api \in CopyApis THEN bref + 1 ELSE bref
+       /\ IF inv[k].api = "sync"
+            THEN Go(t, "in_inv") /\ SetInv(k, [inv[k] EXCEPT !.pc = "ready", !.thr = t])
+            ELSE Go(t, "s_push") /\ inv' = inv
+    /\ UNCHANGED <<cfg, af, performed, dthr, grpv, gate, ug, lv, cntv, ghov>>
+\* dispatch_group_async: dispatch_group_enter(dg) ; then the continuation is pushed (dx_push);
+\* "after" / "handler": the continuation becomes the event handler of a timer source, which is activated
+\* (armed): the queue gets the item when the timer fires
 S_Push(t) ==
     /\ pc[t] = "s_push"
     /\ LET k == lv[t].k IN
-       /\ SetInv(k, [inv[k] EXCEPT !.pc = "ready"])
+       /\ SetInv(k, [inv[k] EXCEPT !.pc = IF inv[k].api \in TimerApis THEN "armed" ELSE "ready"])
        /\ ug' = IF inv[k].api = "gasync" THEN ug + 1 ELSE ug
     /\ IF Fine THEN Go(t, "s_ret") /\ lv' = lv ELSE Ret(t)
-    /\ UNCHANGED <<cfg, blkv, grpv, gate, cntv, ghov>>
+    /\ UNCHANGED <<cfg, blkv, grpv, gate, bref, cntv, ghov>>
 \* the submission call returns: at once for async, after the invocation for sync and b()
 SubmitRet(t) ==
     /\ \/ pc[t] = "s_ret"
@@ -350,7 +367,13 @@ SubmitRet(t) ==
 
 (* ---------------------- the invoke paths (direct / sync_invoke / async_invoke2) ---------------------- *)
 Exec(k, u) == IF inv[k].thr = NoThr THEN u \in Workers ELSE u = inv[k].thr
-Running(k) == inv[k].api \in QApis /\ inv[k].pc \notin {"none", "ready", "done"}
+Running(k) == inv[k].api \in QApis /\ inv[k].pc \notin {"none", "armed", "ready", "done", "i_srel"}
+
+\* the timer fires (not before its deadline: C11): the source, and with it its handler, is pushed on the queue
+I_Fire(k) ==
+    /\ inv[k].pc = "armed"
+    /\ SetInv(k, [inv[k] EXCEPT !.pc = "ready"])
+    /\ UNCHANGED <<cfg, blkv, grpv, envv, pc, lv, cntv, ghov>>
 
 \* the queue hands the item to a thread (b(): the call itself).  cbs = "cancelled before it starts".
 I_Start(k) ==
@@ -372,7 +395,9 @@ AfterLeave(i) == IF Mut = "leave_before_body" /\ ~i.skip /\ ~i.ran THEN PreBody(
 \* if (atomic_flags & DBF_WAITED) CRASH ; if (atomic_flags & DBF_CANCELED) goto out;
 I_Read(k) ==
     /\ inv[k].pc = "i_read"
-    /\ LET canc == Has(af, CANCELED) /\ Mut # "cancel_after_body"
+    /\ LET canc == /\ Has(af, CANCELED) /\ Mut # "cancel_after_body"
+                   \* mutant: only the consuming variant of _dispatch_block_async_invoke2 tests DBF_CANCELED
+                   /\ ~(Mut = "nonconsuming_invoke_ignores_cancel" /\ inv[k].api \in TimerApis)
            i == [inv[k] EXCEPT !.afl = af, !.skip = canc]
        IN /\ SetInv(k, [i EXCEPT !.pc = AfterRead(i, canc)])
           /\ completed' = (completed \/ canc)       \* a skipped execution is complete at once
@@ -432,17 +457,30 @@ I_WakeDone(k) ==
     /\ UNCHANGED <<cfg, blkv, grpv, envv, pc, lv, cntv, ghov>>
 
 \* boost_dq = os_atomic_xchg2o(dbpd, dbpd_queue, NULL, relaxed); if (boost_dq) _dispatch_release_2(boost_dq);
+\* if (invoke_flags & DISPATCH_BLOCK_ASYNC_INVOKE_RELEASE) Block_release(b);   (consuming variant only; the copy of
+\* the non-consuming variant stays with the source: I_SrcRel)
 I_Xchg(k, u) ==
     /\ inv[k].pc = "i_xchg" /\ Exec(k, u)
     /\ dq' = 0 /\ qref' = IF dq # 0 THEN qref - 2 ELSE qref
-    /\ SetInv(k, [inv[k] EXCEPT !.pc = IF inv[k].api = "gasync" THEN "i_ugleave" ELSE "done", !.thr = u])
-    /\ UNCHANGED <<cfg, af, performed, dthr, grpv, envv, pc, lv, cntv, ghov>>
+    /\ LET api == inv[k].api
+           rel == api \in ConsumeApis \/ (Mut = "nonconsuming_invoke_releases" /\ api \in TimerApis) IN
+       /\ bref' = IF rel THEN bref - 1 ELSE bref
+       /\ SetInv(k, [inv[k] EXCEPT !.pc = IF api = "gasync" THEN "i_ugleave"
+                                         ELSE IF api \in TimerApis THEN "i_srel" ELSE "done", !.thr = u])
+    /\ UNCHANGED <<cfg, af, performed, dthr, grpv, gate, ug, pc, lv, cntv, ghov>>
+\* "after": _dispatch_source_handler_free(dr, DS_EVENT_HANDLER) right after the callout (one-shot source);
+\* "handler": the client cancels the source, which disposes of its handlers -> Block_release(dc_ctxt)
+I_SrcRel(k) ==
+    /\ inv[k].pc = "i_srel"
+    /\ bref' = bref - 1
+    /\ SetInv(k, [inv[k] EXCEPT !.pc = "done"])
+    /\ UNCHANGED <<cfg, blkv, grpv, gate, ug, pc, lv, cntv, ghov>>
 \* _dispatch_continuation_with_group_invoke: dispatch_group_leave(dc_data) after the callout
 I_UgLeave(k) ==
     /\ inv[k].pc = "i_ugleave"
     /\ ug' = ug - 1
     /\ SetInv(k, [inv[k] EXCEPT !.pc = "done"])
-    /\ UNCHANGED <<cfg, blkv, grpv, gate, pc, lv, cntv, ghov>>
+    /\ UNCHANGED <<cfg, blkv, grpv, gate, bref, pc, lv, cntv, ghov>>
 
 (* ---------------------------------- dispatch_block_perform ---------------------------------- *)
 \* stack private data: dbpd_atomic_flags = DBF_PERFORM, no group; _dispatch_block_invoke_direct(&dbpds)
@@ -464,9 +502,9 @@ P_Out(t) ==
 
 (* ------------------------------------- environment ------------------------------------- *)
 GateStart == /\ gate = "queued" /\ gate' = "running"
-             /\ UNCHANGED <<cfg, blkv, grpv, ug, pc, lv, inv, cntv, ghov>>
+             /\ UNCHANGED <<cfg, blkv, grpv, ug, bref, pc, lv, inv, cntv, ghov>>
 GateEnd   == /\ gate = "running" /\ gate' = "done"
-             /\ UNCHANGED <<cfg, blkv, grpv, ug, pc, lv, inv, cntv, ghov>>
+             /\ UNCHANGED <<cfg, blkv, grpv, ug, bref, pc, lv, inv, cntv, ghov>>
 
 (* --------------------------------------- next --------------------------------------- *)
 Call(t) == \/ \E a \in Apis : CallSubmit(t, a)
@@ -480,7 +518,7 @@ Lib(t) == \/ C_Or(t) \/ C_PlainRead(t) \/ C_PlainWrite(t) \/ T_Read(t)
           \/ S_Cas(t) \/ S_Push(t) \/ SubmitRet(t)
           \/ P_Read(t) \/ P_BodyStart(t) \/ P_BodyEnd(t) \/ P_Out(t)
 
-InvStep(k) == \/ I_Start(k) \/ I_Read(k) \/ I_SetThr(k) \/ I_WakeDone(k) \/ I_UgLeave(k)
+InvStep(k) == \/ I_Fire(k) \/ I_Start(k) \/ I_Read(k) \/ I_SetThr(k) \/ I_WakeDone(k) \/ I_UgLeave(k) \/ I_SrcRel(k)
               \/ \E u \in Threads \cup Workers :
                     I_BodyStart(k, u) \/ I_BodyEnd(k, u) \/ I_Inc(k, u) \/ I_Leave(k, u) \/ I_Xchg(k, u)
 
@@ -500,10 +538,10 @@ FairSpec == /\ Spec
 PcSet == {"idle", "s_cas", "s_push", "s_ret", "in_inv", "c_or", "c_wr", "t_read",
           "w_or", "w_xchg", "w_thr", "w_load", "w_gcheck", "w_sleep", "w_fin",
           "n_load", "n_reg", "n_ret", "p_read", "p_body", "p_bodyrun", "p_out"}
-IPcSet == {"none", "ready", "i_read", "i_setthr", "i_body", "i_bodyrun", "i_inc", "i_leave", "i_wake",
-           "i_xchg", "i_ugleave", "done"}
+IPcSet == {"none", "armed", "ready", "i_read", "i_setthr", "i_body", "i_bodyrun", "i_inc", "i_leave", "i_wake",
+           "i_xchg", "i_ugleave", "i_srel", "done"}
 TypeOK == /\ af \in 0..15 /\ performed \in Nat /\ dq \in {0, 1}
-          /\ gcnt \in Nat /\ ggen \in Nat
+          /\ gcnt \in Nat /\ ggen \in Nat /\ bref \in Int
           /\ \A t \in Threads : pc[t] \in PcSet
           /\ \A k \in 1..MaxInv : inv[k].pc \in IPcSet
           /\ \A n \in NIds : nst[n] \in {"none", "calling", "registered", "fired", "ran"}
@@ -538,6 +576,11 @@ GroupDiscipline == /\ gcnt \in {0, 1}
 \* dbpd_queue reference: taken at most once at a time, given back by exactly one of wait / invoke
 QueueRefBalanced == /\ qref \in {0, 2} /\ (dq = 1 <=> qref = 2)
                     /\ Quiescent => qref = 0
+\* the continuation's copy of the block object: alive as long as an invocation may still use it (the consuming
+\* invoke gives it back itself, last thing; the non-consuming one leaves it to the source), given back exactly once
+UsesBlock(k) == inv[k].api \in CopyApis /\ inv[k].pc \notin {"none", "done", "i_ugleave"}
+BlockRefBalanced == /\ bref >= Cardinality({k \in 1..MaxInv : UsesBlock(k)})
+                    /\ Quiescent => bref = 0
 \* dispatch_group_async: the user's group is held until the invocation is over
 UserGroupHeld == \A k \in 1..MaxInv :
                     (inv[k].api = "gasync" /\ inv[k].pc \notin {"none", "done"}) => ug >= 1
